@@ -32,7 +32,9 @@ func askRaceOnce() (res askRaceResult) {
 		})
 	}
 	sc := sched.New(func(point string, a, b interface{}) string {
-		if point == "upstream.handleRedirection.asked" {
+		// pinned code: between the two sends of handleRedirection; repaired code: in the backend writer between
+		// ASKING and the command it belongs to (nothing else can get onto the wire in between)
+		if point == "upstream.handleRedirection.asked" || point == "client.loopWrite.asked" {
 			return "asked"
 		}
 		return ""
